@@ -35,6 +35,7 @@ type Env struct {
 	Repo     string // snapshot of /repo's working tree
 	FC       string
 	FCB      string // second compiler variant ("" when identical to FC)
+	FCPerm   string // fc built against the dict-order shim ("" when unavailable)
 	Tinyfo   string
 	BSM      string
 	GoCache  string // private GOCACHE for emitted programs
@@ -82,6 +83,7 @@ func Get() *Env {
 			Repo:     os.Getenv("VERIF_REPO"),
 			FC:       os.Getenv("VERIF_FC"),
 			FCB:      os.Getenv("VERIF_FCB"),
+			FCPerm:   os.Getenv("VERIF_FCPERM"),
 			Tinyfo:   os.Getenv("VERIF_TINYFO"),
 			BSM:      os.Getenv("VERIF_BSM"),
 			GoCache:  os.Getenv("VERIF_GOCACHE"),
